@@ -776,32 +776,27 @@ class MessageManager(ClientLike):
         """Send MESSAGE_TRAFFIC"""
         with self.sending_traffic_ctx():
             self.logger.debug("MESSAGE_TRAFFIC")
-            data = cd.MDF_MESSAGE_TRAFFIC()
             now = time.perf_counter()
             sub_seqno = 1
-            nsent = 0
-            i = -1
-            for n, (mt, count) in enumerate(self.traffic_counter.items()):
+            entries = list(self.traffic_counter.items())
+            # one sub-message per MESSAGE_TRAFFIC_SIZE entries, unused entries marked with -1
+            for start in range(0, len(entries), cd.MESSAGE_TRAFFIC_SIZE):
+                chunk = entries[start : start + cd.MESSAGE_TRAFFIC_SIZE]
+                data = cd.MDF_MESSAGE_TRAFFIC()
                 data.seqno = self.traffic_seqno
                 data.sub_seqno = sub_seqno
                 data.start_timestamp = self.traffic_start
                 data.end_timestamp = now
 
-                i = n % cd.MESSAGE_TRAFFIC_SIZE
-                data.msg_type[i] = mt
-                data.msg_count[i] = count
+                for i, (mt, count) in enumerate(chunk):
+                    data.msg_type[i] = mt
+                    data.msg_count[i] = count
 
-                if (n % cd.MESSAGE_TRAFFIC_SIZE) == 0:
-                    nsent = n
-                    self.send_message(data)
-                    sub_seqno += 1
-
-            # Send any remaining
-            if i >= 0:
-                i += 1
-                if nsent < len(self.traffic_counter):
-                    data.msg_type[i:] = [-1 for _ in range(cd.MESSAGE_TRAFFIC_SIZE - i)]
-                    self.send_message(data)
+                data.msg_type[len(chunk) :] = [
+                    -1 for _ in range(cd.MESSAGE_TRAFFIC_SIZE - len(chunk))
+                ]
+                self.send_message(data)
+                sub_seqno += 1
 
         self.traffic_counter.clear()
         self.traffic_start = now
